@@ -36,6 +36,37 @@ def field_case(draw):
     return draw(gens.input_case(o))
 
 
+@st.composite
+def twin_case(draw):
+    """Two inline structures carrying the SAME tag but different bodies, as elements of arrays with the same length
+    spelling (so the array types carry the same display name, e.g. 'entry[2]'): element boundaries follow each
+    array's own element type."""
+    ints = ["uint8", "uint16", "uint32", "int24", "int64"]
+
+    def body(prefix):
+        return [{"name": f"{prefix}{i}", "t": S(draw(st.sampled_from(ints))), "bits": None} for i in range(draw(st.integers(1, 3)))]
+
+    form = draw(st.sampled_from(["fixed", "fixed", "expr", "null"]))
+    k = draw(st.integers(1, 3))
+
+    def ln():
+        return {"fixed": ["fixed", k], "expr": ["expr", "n", ["id", "n"]], "null": ["null"]}[form]
+
+    a = {"k": "st", "kind": "struct", "name": "entry", "fields": body("a")}
+    b = {"k": "st", "kind": "struct", "name": "entry", "fields": body("b")}
+    holder = {"k": "st", "kind": "struct", "name": None, "fields": [{"name": "n", "t": S("uint8"), "bits": None}, {"name": "e", "t": {"k": "a", "t": b, "len": ln()}, "bits": None}]}
+    fields = [{"name": "n", "t": S("uint8"), "bits": None}, {"name": "e", "t": {"k": "a", "t": a, "len": ln()}, "bits": None}, {"name": "mid", "t": S("uint8"), "bits": None},
+              {"name": "q", "t": holder, "bits": None}, {"name": "tail", "t": S("uint16"), "bits": None}]
+    if draw(st.booleans()):
+        fields[1], fields[3] = dict(fields[3], name="q"), dict(fields[1], name="e")
+    defs = [{"k": "structdef", "n": "Root", "t": {"k": "st", "kind": "struct", "name": None, "fields": fields}}]
+    cfg = draw(gens.config())
+    sem = Sem(defs, cfg)
+    v = gens.gen_value(draw, sem, gens.ROOT)
+    enc = bytes(sem.encode(gens.ROOT, v))
+    return {"defs": defs, "root": "Root", "cfg": cfg, "data": (enc + draw(st.binary(max_size=3))).hex(), "consumed": len(enc), "twin": True}
+
+
 def _elem(draw, kind, defs):
     if kind == "enum" or kind == "flag":
         base = draw(st.sampled_from(["uint8", "int16", "uint32", "uint24", "uint64"] if kind == "enum" else ["uint8", "uint16", "uint32", "uint24"]))
@@ -390,6 +421,7 @@ def stages(tier):
         HypStage("constants", const_case, examples=300 if q else 2000, shards=1 if q else 2),
         HypStage("counts", count_case, examples=400 if q else 3000, shards=1 if q else 2),
         HypStage("fields", field_case, examples=1500 if q else 6000, shards=8 if q else 16),
+        HypStage("same-tag-elements", twin_case, examples=300 if q else 2500, shards=2),
         HypStage("standalone", standalone_case, examples=1500 if q else 6000, shards=4 if q else 8),
         HypStage("ragged", ragged_case, examples=300 if q else 2000, shards=1 if q else 2),
         HypStage("refuse", refuse_case, examples=400 if q else 3000, shards=2 if q else 4),
